@@ -12,6 +12,18 @@ DEFAULTS = dict(
 )
 
 
+def _call_by_name(fn, values):
+    """Call a driver function of the repository by parameter NAME (positions and extra defaulted parameters may change)."""
+    import inspect
+
+    params = inspect.signature(fn).parameters
+    kwargs = {k: v for k, v in values.items() if k in params}
+    missing = [k for k, p_ in params.items() if k not in kwargs and p_.default is inspect.Parameter.empty and p_.kind in (p_.POSITIONAL_OR_KEYWORD, p_.KEYWORD_ONLY)]
+    if missing:
+        raise RuntimeError("harness: %s has parameters the harness does not know how to fill: %r" % (fn.__name__, missing))
+    return fn(**kwargs)
+
+
 def full(cfg):
     c = dict(DEFAULTS)
     c.update(cfg)
@@ -58,10 +70,11 @@ def run_chain(cfg, rng, record=None):
     prun._run_burnin = burnin_spy
     try:
         with contextlib.redirect_stdout(io.StringIO()):
-            res = prun.run_phyclone_chain(
-                c["burnin"], c["conc_update"], c["conc_value"], data, c["max_time"], c["iters"], c["N"], c["n_dp"], c["n_prg"],
-                c["outlier_prob"], 100, c["proposal"], c["threshold"], rng, samples, c["thin"], 0, c["subtree_prob"],
-            )
+            res = _call_by_name(prun.run_phyclone_chain, dict(
+                burnin=c["burnin"], concentration_update=c["conc_update"], concentration_value=c["conc_value"], data=data, max_time=c["max_time"],
+                num_iters=c["iters"], num_particles=c["N"], num_samples_data_point=c["n_dp"], num_samples_prune_regraph=c["n_prg"],
+                outlier_prob=c["outlier_prob"], print_freq=100, proposal=c["proposal"], resample_threshold=c["threshold"], rng=rng, samples=samples,
+                thin=c["thin"], chain_num=0, subtree_update_prob=c["subtree_prob"]))
     finally:
         prun.Timer = old_timer
         prun._run_burnin = old_burnin
@@ -107,8 +120,8 @@ def run_main_from(cfg, rng, start_state):
     tree.relabel_nodes()
     timer = VirtualTimer(step=c["clock_step"])
     with contextlib.redirect_stdout(io.StringIO()):
-        res = prun._run_main_sampler(
-            c["conc_update"], data, c["max_time"], c["iters"], c["n_dp"], c["n_prg"], 100, samplers, samples, c["thin"], timer, tree, tree_dist, 0, rng,
-            c["subtree_prob"],
-        )
+        res = _call_by_name(prun._run_main_sampler, dict(
+            concentration_update=c["conc_update"], data=data, max_time=c["max_time"], num_iters=c["iters"], num_samples_data_point=c["n_dp"],
+            num_samples_prune_regraph=c["n_prg"], print_freq=100, samplers=samplers, samples=samples, thin=c["thin"], timer=timer, tree=tree,
+            tree_dist=tree_dist, chain_num=0, rng=rng, subtree_update_prob=c["subtree_prob"]))
     return res, data
